@@ -1,8 +1,14 @@
 #!/bin/sh
-# Build the framework from files on disk only (offline): tables, Lean library + driver, Rust harness.
+# Build the framework from files on disk only (offline): tables, Lean library + every theorem module + driver, Rust harness.
 set -e
 cd "$(dirname "$0")"
 export CARGO_NET_OFFLINE=true
 python3 tools/extract.py || true
-(cd lean && lake build nervus_driver Nervus)
+mods=$(python3 -c "
+import json,glob
+m=[]
+for f in sorted(glob.glob('props/C*.json')):
+    m+=json.load(open(f)).get('lean_modules',[])
+print(' '.join(sorted(set(m))))")
+(cd lean && lake build nervus_driver Nervus $mods)
 (cd harness && cargo build --offline)
